@@ -142,6 +142,22 @@ def rejection_sampling(ctx, world, ev):
             or (mk_app("Gt", (maxval, cand)), True) in conds or (mk_app("LtE", (maxval, cand)), False) in conds
         ctx.ob("R1", "acceptance test", ok, "candidate returned only if candidate < stop - start (strict)" if ok else
                "acceptance condition is not 'candidate < stop - start': %s" % sorted(show(t, maxdepth=3) + "=" + str(p) for t, p in conds if cand in subterms(t)), site)
+        # R1-exact: the only conditions an accepted iteration depends on are the acceptance test and
+        # the length assertion of the draw: any other condition on the drawn bytes discards some
+        # draws and biases (or excludes) values
+        enter = [i for i, r in enumerate(o.state.log) if r[0] == "loop-enter"]
+        extra = []
+        for (t, p, site_) in o.state.pc:
+            if not any(is_app(x, "call") and x.args and x.args[0] == ent for x in subterms(t)):
+                continue
+            if t in (mk_app("Lt", (cand, maxval)), mk_app("GtE", (cand, maxval)), mk_app("Gt", (maxval, cand)), mk_app("LtE", (maxval, cand))):
+                continue
+            if is_app(t, "Eq", "NotEq") and any(is_app(a, "len") for a in t.args):
+                continue
+            extra.append(show(t, maxdepth=4) + "=" + str(p))
+        ctx.ob("R1-exact", "no other rejection", not extra,
+               "an iteration is accepted on the sole condition candidate < stop - start" if not extra else
+               "accepted iterations also depend on %s: some draws are discarded for another reason, so values are not equally likely" % extra, site)
         # R3/R6: candidate = be2int(bytes([mask & D[0]] + D[1:])) with D a fresh draw of num_bytes
         ok3, why3, mask, nb = False, "", None, None
         if is_app(cand, "be2int") and is_app(cand.args[0], "bytes"):
